@@ -290,6 +290,73 @@ func vpC04Work(depth int) {
 	vpReach("end")
 }
 
+// EQWORK: the same proxy for the comparisons the decoders make (an array's members are compared with
+// each other while it is loaded) and that a caller makes on what was decoded: two chains of d values
+// with the same ids, nested through inReplyTo, end in a leaf that counts how often the comparison
+// reaches it (the leaf is a twin of Object from another scope, handed out by the type registry hook
+// for one type name). Comparing the chains must reach the leaf a small multiple of d times, not 2^d.
+type vpCountObject Object
+
+var vpLeafVisits int
+
+func (c *vpCountObject) GetID() ID    { return c.ID }
+func (c *vpCountObject) GetLink() IRI { return c.ID }
+func (c *vpCountObject) GetType() ActivityVocabularyType {
+	vpLeafVisits++
+	return c.Type
+}
+func (c *vpCountObject) IsLink() bool       { return false }
+func (c *vpCountObject) IsObject() bool     { return true }
+func (c *vpCountObject) IsCollection() bool { return false }
+
+func vpC04EqWork(depth int) {
+	typ := []string{"Like", "Travel", "Question", "Person", "Article", "OrderedCollection", "CollectionPage", "Place"}[vpChoice(8)]
+	chain := func() []byte {
+		var b []byte
+		for i := 0; i < depth; i++ {
+			b = append(b, `{"id":"https://h.ex/`...)
+			b = append(b, 'a'+byte(i))
+			b = append(b, `","type":"`+typ+`","inReplyTo":`...)
+		}
+		b = append(b, `{"id":"https://h.ex/leaf","type":"Note"}`...)
+		for i := 0; i < depth; i++ {
+			b = append(b, '}')
+		}
+		return b
+	}
+	save := ItemTyperFunc
+	ItemTyperFunc = func(t ActivityVocabularyType) (Item, error) {
+		if t == NoteType {
+			return &vpCountObject{}, nil
+		}
+		return GetItemByType(t)
+	}
+	vpLeafVisits = 0
+	var one, two Item
+	way := vpChoice(2)
+	p := vpMayPanic(func() {
+		if way == 0 {
+			// the decoder's own comparison: the two chains are the members of one array
+			doc := append(append(append([]byte{'['}, chain()...), ','), chain()...)
+			doc = append(doc, ']')
+			_, _ = UnmarshalJSON(doc)
+		} else {
+			one, _ = UnmarshalJSON(chain())
+			two, _ = UnmarshalJSON(chain())
+			vpLeafVisits = 0
+			_ = ItemsEqual(one, two)
+		}
+	})
+	ItemTyperFunc = save
+	cell := typ + "/" + []string{"array-members", "decoded-values"}[way]
+	vpAssert("eqwork/no-panic/"+cell, !p)
+	vpAssert("eqwork/comparisons-proportional-to-depth/"+cell, vpLeafVisits <= 8+4*depth)
+	vpReach("end")
+}
+
+func vpH_C04_eqwork6()  { vpC04EqWork(6) }
+func vpT_C04_eqwork12() { vpC04EqWork(12) }
+
 func vpH_C04_work6()  { vpC04Work(6) }
 func vpT_C04_work10() { vpC04Work(10) }
 
